@@ -592,6 +592,99 @@ def _run_prog(prog, rng, pre=None):
             outs.append(COMPONENTS[step["comp"]][2](par, rng))
     return outs
 
+def _single_run(case, tag):
+    """ONE execution of a case.  repro: tag A / B = [history h1 / h2; objects made before the seeding; seed; program], R = the program
+    without copies after an empty history.  isolated: tag 1 / 2 = [history h1 / h2; the generator; objects; program], 3 = without copies."""
+    from pybrops.core.random import prng
+    if case["kind"] == "repro":
+        h = {"A": case["h1"], "B": case["h2"], "R": []}[tag]
+        prog = _ref_prog(case["prog"]) if tag == "R" else case["prog"]
+        _history(h)
+        pre = _obtain_pre(prog, None)            # objects and copies made BEFORE the seeding
+        prng.seed(case["seed"])
+        g0 = _gstate()
+        outs = _run_prog(prog, None, pre)
+        g1 = _gstate()
+        return {"outs": outs, "py_end": g1[0], "np_end": g1[1], "py_moved": g0[0] != g1[0], "np_moved": g0[1] != g1[1]}
+    h = {"1": case.get("h1", []), "2": case.get("h2", []), "3": []}[tag]
+    prog = _ref_prog(case["prog"]) if tag == "3" else case["prog"]
+    _history(h)
+    rng = _mkrng(case["rngkind"], case["rseed"])
+    for _ in range(case.get("skip", 0)): rng.random()
+    g0 = _gstate(); r0 = _rstate(rng)
+    pre = _obtain_pre(prog, rng)
+    outs = _run_prog(prog, rng, pre)
+    g1 = _gstate(); r1 = _rstate(rng)
+    return {"outs": outs, "py_moved": g0[0] != g1[0], "np_moved": g0[1] != g1[1], "ex_moved": r0 != r1, "r_end": r1}
+
+# ---- a process that has executed nothing: state cached inside the interpreter (memoised draws, lru_cache'd helpers, class-level
+# caches) is the same in two executions made one after the other in ONE process, so comparing those cannot see it.  Every worker
+# therefore forks, before it executes its first case, a "zygote" that never runs library code itself and only forks a child per job;
+# the child executes one `_single_run` from the pristine state and pipes the result back.
+_ZYG = None
+def _zygote():
+    global _ZYG
+    import os, json, signal
+    if _ZYG is not None and _ZYG[0] == os.getpid(): return _ZYG
+    c2z_r, c2z_w = os.pipe(); z2c_r, z2c_w = os.pipe()
+    pid = os.fork()
+    if pid == 0:
+        try:
+            os.close(c2z_w); os.close(z2c_r)
+            signal.alarm(0)
+            for s in (signal.SIGALRM, signal.SIGTERM, signal.SIGINT): signal.signal(s, signal.SIG_DFL)
+            fin = os.fdopen(c2z_r, "r"); fout = os.fdopen(z2c_w, "w")
+            while True:
+                line = fin.readline()
+                if not line: break
+                r, w = os.pipe()
+                k = os.fork()
+                if k == 0:
+                    os.close(r)
+                    try:
+                        signal.alarm(170)                      # default action: the child dies, the parent reports it
+                        job = json.loads(line)
+                        res = _single_run(job["case"], job["tag"])
+                    except BaseException as e:
+                        res = {"exc": type(e).__name__, "msg": str(e)[:300]}
+                    try:
+                        data = json.dumps(res).encode()
+                        while data: data = data[os.write(w, data):]
+                    finally:
+                        os._exit(0)
+                os.close(w)
+                chunks = []
+                while True:
+                    c = os.read(r, 1 << 16)
+                    if not c: break
+                    chunks.append(c)
+                os.close(r); os.waitpid(k, 0)
+                data = b"".join(chunks).decode() or json.dumps({"exc": "FreshProcessDied", "msg": "no result (killed or timed out)"})
+                fout.write(data.replace("\n", " ") + "\n"); fout.flush()
+        finally:
+            os._exit(0)
+    os.close(c2z_r); os.close(z2c_w)
+    _ZYG = (os.getpid(), os.fdopen(c2z_w, "w"), os.fdopen(z2c_r, "r"), pid)
+    return _ZYG
+
+def _fresh_submit(job):
+    import json
+    try:
+        z = _zygote()
+        z[1].write(json.dumps(job) + "\n"); z[1].flush()
+        return z
+    except Exception as e:
+        return {"exc": type(e).__name__, "msg": "zygote: %s" % e}
+
+def _fresh_collect(z):
+    import json
+    if isinstance(z, dict): return z
+    try:
+        line = z[2].readline()
+        return json.loads(line) if line else {"exc": "FreshProcessDied", "msg": "zygote closed the pipe"}
+    except Exception as e:
+        return {"exc": type(e).__name__, "msg": "zygote: %s" % e}
+
 def run_impl(case):
     from pybrops.core.random import prng
     kind = case["kind"]
@@ -617,38 +710,22 @@ def run_impl(case):
         return out
     if kind == "repro":
         res = {}
-        runs = [("A", case["h1"], case["prog"]), ("B", case["h2"], case["prog"])]
-        if _has_life(case["prog"]): runs.append(("R", [], _ref_prog(case["prog"])))       # reference: no copies anywhere
-        for tag, h, prog in runs:
-            _history(h)
-            pre = _obtain_pre(prog, None)            # objects and copies made BEFORE the seeding
-            prng.seed(case["seed"])
-            g0 = _gstate()
-            outs = _run_prog(prog, None, pre)
-            g1 = _gstate()
-            res[tag] = {"outs": outs, "py_end": g1[0], "np_end": g1[1], "py_moved": g0[0] != g1[0], "np_moved": g0[1] != g1[1]}
+        fresh = _fresh_submit({"case": case, "tag": "B"})      # the B execution once more, in a process that has executed nothing yet
+        tags = ["A", "B"] + (["R"] if _has_life(case["prog"]) else [])        # R = reference: no copies anywhere
+        for tag in tags: res[tag] = _single_run(case, tag)
+        res["F"] = _fresh_collect(fresh)
         return res
     if kind == "isolated":
-        _history(case.get("h1", []))
-        rng = _mkrng(case["rngkind"], case["rseed"])
-        for _ in range(case.get("skip", 0)): rng.random()
-        g0 = _gstate(); r0 = _rstate(rng)
-        pre = _obtain_pre(case["prog"], rng)
-        out1 = _run_prog(case["prog"], rng, pre)
-        g1 = _gstate(); r1 = _rstate(rng)
-        _history(case.get("h2", []))
-        rng2 = _mkrng(case["rngkind"], case["rseed"])
-        for _ in range(case.get("skip", 0)): rng2.random()
-        pre2 = _obtain_pre(case["prog"], rng2)
-        out2 = _run_prog(case["prog"], rng2, pre2)
-        r2 = _rstate(rng2)
-        res = {"py_moved": g0[0] != g1[0], "np_moved": g0[1] != g1[1], "ex_moved": r0 != r1, "out1": out1, "out2": out2, "r1": r1, "r2": r2}
+        fresh = _fresh_submit({"case": case, "tag": "2"})
+        one = _single_run(case, "1"); two = _single_run(case, "2")
+        res = {"py_moved": one["py_moved"], "np_moved": one["np_moved"], "ex_moved": one["ex_moved"], "out1": one["outs"], "out2": two["outs"],
+               "r1": one["r_end"], "r2": two["r_end"]}
         if _has_life(case["prog"]):                  # reference: the same program without copies, from an equal generator state
-            rng3 = _mkrng(case["rngkind"], case["rseed"])
-            for _ in range(case.get("skip", 0)): rng3.random()
-            ref = _ref_prog(case["prog"])
-            pre3 = _obtain_pre(ref, rng3)
-            res["out3"] = _run_prog(ref, rng3, pre3); res["r3"] = _rstate(rng3)
+            three = _single_run(case, "3")
+            res["out3"] = three["outs"]; res["r3"] = three["r_end"]
+        f = _fresh_collect(fresh)
+        if "exc" in f: res["fresh_exc"] = f
+        else: res["outF"] = f["outs"]; res["rF"] = f["r_end"]; res["F_moved"] = bool(f["py_moved"] or f["np_moved"])
         return res
     raise ValueError(kind)
 
@@ -816,11 +893,15 @@ def emit_case(case, out):
     if k == "repro":
         A, B = out["A"], out["B"]
         same = A["outs"] == B["outs"] and A["py_end"] == B["py_end"] and A["np_end"] == B["np_end"]
+        F = out["F"]
+        if "exc" in F: return "false"
+        same = same and B["outs"] == F["outs"] and B["py_end"] == F["py_end"] and B["np_end"] == F["np_end"]      # fresh interpreter state
         if "R" in out:            # a program with copies must be the same function of the seed as the program without
             R = out["R"]
             same = same and A["outs"] == R["outs"] and A["py_end"] == R["py_end"] and A["np_end"] == R["np_end"]
         return "(FP.obs_agree false %s (FP.mkobs %s %s false %s))" % (names, E.b(A["py_moved"] or B["py_moved"]), E.b(A["np_moved"] or B["np_moved"]), E.b(same))
-    same = out["out1"] == out["out2"] and out["r1"] == out["r2"]
+    if "fresh_exc" in out: return "false"
+    same = out["out1"] == out["out2"] and out["r1"] == out["r2"] and out["out2"] == out["outF"] and out["r2"] == out["rF"]
     if "out3" in out: same = same and out["out1"] == out["out3"] and out["r1"] == out["r3"]
     return "(FP.obs_agree true %s (FP.mkobs %s %s %s %s))" % (names, E.b(out["py_moved"]), E.b(out["np_moved"]), E.b(out["ex_moved"]), E.b(same))
 
@@ -858,6 +939,16 @@ def pred(case, out):
         if not bad:
             if A["py_end"] != B["py_end"]: bad.append("python stream differs at the end of the seeded program")
             if A["np_end"] != B["np_end"]: bad.append("numpy stream differs at the end of the seeded program")
+        F = out["F"]
+        if "exc" in F: bad.append("the execution in a fresh process raised %s: %s" % (F["exc"], F["msg"]))
+        elif not bad:
+            for i, (a, b) in enumerate(zip(B["outs"], F["outs"])):
+                if a != b:
+                    bad.append("step %d (%s): outputs after the same seed differ between a process that executed other calls before and a fresh one "
+                               "(state kept inside the interpreter survives the re-seeding)" % (i, case["prog"][i]["comp"])); break
+            else:
+                if B["np_end"] != F["np_end"] or B["py_end"] != F["py_end"]:
+                    bad.append("global streams at the end of the seeded program differ between a used process and a fresh one")
         if "R" in out:
             R = out["R"]
             for i, (a, b) in enumerate(zip(A["outs"], R["outs"])):
@@ -874,6 +965,14 @@ def pred(case, out):
         if a != b:
             bad.append("step %d (%s): result is not a function of the supplied generator's state" % (i, case["prog"][i]["comp"])); break
     if not bad and out["r1"] != out["r2"]: bad.append("supplied generator ends in different states")
+    if "fresh_exc" in out: bad.append("the execution in a fresh process raised %s: %s" % (out["fresh_exc"]["exc"], out["fresh_exc"]["msg"]))
+    elif not bad:
+        for i, (a, b) in enumerate(zip(out["out2"], out["outF"])):
+            if a != b:
+                bad.append("step %d (%s): result from equal generator states differs between a process that executed other calls before and a fresh one "
+                           "(state kept inside the interpreter)" % (i, case["prog"][i]["comp"])); break
+        else:
+            if out["r2"] != out["rF"]: bad.append("supplied generator ends in different states in a used process and in a fresh one")
     if "out3" in out:
         for i, (a, b) in enumerate(zip(out["out1"], out["out3"])):
             if a != b:
